@@ -46,7 +46,7 @@ func DefaultWeights() Weights {
 		"totpsetup": 3, "totpconfirm": 3, "totpremove": 1, "totpvalidate": 5, "totpgetsetup": 1,
 		"smssetup": 3, "smsconfirm": 3, "smsremove": 1, "smsvalidate": 6, "smsgetsetup": 1,
 		"regen": 1, "vstart": 2, "vend": 2, "prot": 5, "open": 1, "lockmw": 1, "confirmmw": 1, "rootmw": 1,
-		"adv": 6, "apilock": 1, "apiunlock": 1, "updpw": 1, "setcookie": 3, "stealcookie": 2,
+		"adv": 6, "keepalive": 2, "apilock": 1, "apiunlock": 1, "updpw": 1, "setcookie": 3, "stealcookie": 2,
 	}
 }
 
@@ -407,7 +407,7 @@ func (g *Gen) Step() {
 		prov := pick(g.R, []string{"stub", "other"})
 		g.OIdx++
 		code := fmt.Sprintf("code%d", g.OIdx)
-		uid := pick(g.R, []string{"u1", "u2", "u;3", "u;;4", "u;4", "u;;3", "ü5"})
+		uid := pick(g.R, []string{"u1", "u;;4", "u;4", "u;;4", "u;4", "u;3", "ü5"})
 		if g.R.Intn(6) != 0 {
 			m.W.OAuth[code] = map[string]string{"uid": uid}
 		}
@@ -529,6 +529,14 @@ func (g *Gen) Step() {
 		r = m.HTTP(b, "prot", args, nil)
 	case "open", "lockmw", "confirmmw", "rootmw":
 		r = m.HTTP(b, kind, Args{}, nil)
+	case "keepalive":
+		// a browser that keeps using the site: every gap is below the idle limit
+		E := m.Cfg.ExpireAfter
+		for k := 0; k < 2+g.R.Intn(3); k++ {
+			gap := E/4 + time.Duration(g.R.Int63n(int64(E*6/10)))
+			m.Advance(gap)
+			m.HTTP(b, "open", Args{}, nil)
+		}
 	case "adv":
 		if g.R.Intn(3) == 0 {
 			// gaps placed on the configured thresholds
